@@ -139,6 +139,12 @@ def main():
     c = os.path.join(vlib.scratch(), "demo_se.cfg")
     open(c, "w").write("SPECIFICATION Spec\nCONSTANTS\n ColumnFirst = FALSE\nINVARIANTS C01_RelayConverged C01_ClientConverged C05_NothingDropped\n")
     flip("Sentinel ColumnFirst=FALSE (as found)", "Sentinel.tla", c, ["C05_NothingDropped", "C01_ClientConverged"])
+    c = os.path.join(vlib.scratch(), "demo_cl.cfg")
+    open(c, "w").write("SPECIFICATION Spec\nCONSTANTS\n Nodes = {1, 2}\n Ids = {0, 1}\n Dynamic = TRUE\n DynamicSend = FALSE\nINVARIANTS C16_NoCrossApply C16_NoCrossData C16_SyncRejected\n")
+    flip("Cluster DynamicSend=FALSE", "Cluster.tla", c, ["C16_NoCrossData"])
+    c = os.path.join(vlib.scratch(), "demo_cl2.cfg")
+    open(c, "w").write("SPECIFICATION Spec\nCONSTANTS\n Nodes = {1, 2}\n Ids = {0, 1}\n Dynamic = FALSE\n DynamicSend = TRUE\nINVARIANTS C16_NoCrossApply C16_NoCrossData C16_SyncRejected\n")
+    flip("Cluster Dynamic=FALSE (as found)", "Cluster.tla", c, ["C16_NoCrossApply", "C16_NoCrossData"])
     c = prop_c02.write_cfg("demo_bk", prop_c02.CONFIGS_QUICK["B"], "Spec", fullstart=1)
     flip("Bookkeeping FullStart=1 (as found)", "MCBookkeeping.tla", c, None)
     res["wall_s"] = round(time.time() - t0, 1)
